@@ -379,6 +379,19 @@ func c19Run(e *core.Env) {
 		if os.Getenv("KMC_VERBOSE") != "" {
 			e.Note("%s: exec=%d pruned=%d cached=%d depth=%d completed=%d capped=%v", sc.Name, st.Executions, st.Pruned, st.CachedStates, st.MaxDepth, st.BoundCompleted, st.Capped)
 		}
+		if e.Thorough() && key == "" && !strings.Contains(sc.Name, "-wide-") && st.MaxDepth < 140 {
+			// second pass: the COMPLETE space of non-preemptive schedules (forced switches,
+			// select cases and rendezvous partners unbounded), finite thanks to state caching
+			k2, d2, p2, st2, _ := c19Scenario(e, drv, sc, core.Bounds{Preempt: 0, Free: -1}, 900000)
+			e.AddStats(st2)
+			e.Add("evaluations", st2.Executions)
+			if !st2.Capped {
+				e.Count("scenarios_with_complete_nonpreemptive_space")
+			}
+			if k2 != "" {
+				key, detail, picks = k2, d2, p2
+			}
+		}
 		e.Sample(map[string]any{"scenario": sc.Name, "args": sc.Args, "executions": st.Executions, "pruned_at_explored_state": st.Pruned, "hb_states_cached": st.CachedStates, "max_choice_depth": st.MaxDepth})
 		if key != "" {
 			cs := c19Case{Scenario: sc.Name, Picks: picks, Tier: e.Tier}
